@@ -53,6 +53,15 @@ def run(ck):
             nat = langlib.run_native(b, path, wd)
             return pid, style, src, vm, nat
         results = langlib.pmap(one, progs)
+    # hypotheses of C01_backends_agree evaluated on the stream: se_program (extracted) must hold for every generated program
+    # while the argument-order finding is open (the generator is configured not to produce two effectful arguments)
+    nv = ck.nvref('lang')
+    gen_only = [(pid, p) for pid, p, _ in progs if pid not in lang_findings.WITNESSES]
+    se = vlib.run_lines(nv, ['se 0 ' + progen.to_sexp(p) for _, p in gen_only], timeout=600)
+    ck.extra['theorem_hypotheses'] = dict(se_program_true=sum(x.strip() == '1' for x in se), se_program_false=sum(x.strip() == '0' for x in se),
+                                          generator_multi_effect_args=cfg.multi_effect_args)
+    # (se_program is stronger than the generator's promise: it also counts pure calls and / % as possibly effectful;
+    #  programs outside it are covered by the correspondence only -- the split is reported, not enforced)
     for pid, style, src, vm, nat in results:
         d = differ(vm, nat)
         ck.extra['classes']['%s/%s' % (vm['cls'], nat['cls'])] += 1
